@@ -23,6 +23,14 @@ P = {
   "edge_node/edge_face tables, face centres and data are symbolic, so 'which node/face does entry e refer to' is a solver variable: z3 shows that the real distance kernels apply the great-circle formula (trig uninterpreted, degrees converted exactly once) to edge e's own two nodes / the centres of its own two faces, 0 on boundary edges, source-supplied distances passed through; and that difference/gradient equal |v[a]-v[b]| (/distance) per leading index, 0 on boundary edges, unit norm when normalised, on edge-dimensioned results of the same grid.",
   "Bounds: 5 nodes, 3 faces, 3-5 edges with arbitrary end nodes/adjacent faces, leading dims up to (2,2), float and int data, coordinates pairwise >=3 degrees apart (genericity), optional source-supplied xyz on a sphere of arbitrary radius. Distance obligations are abstracted (UF trig): sat models are candidates judged by a replay against an independent chord-length oracle (1e-6). Trusted: shim masked/fancy indexing (validated against numpy each run), z3 NRA for the normalisation clause.",
   "DESIGN.md §2 C16"),
+ "C03": (True,
+  "One symbolic run through the real edge construction and the real incidence builders (njit loops via their Python bodies): for every manifold face table in the bound z3 shows that edge_face[e] lists exactly the faces bounded by e (padding iff boundary edge), hole_edge_indices are exactly the single-face edges, face_face[f] holds the other-side faces once per shared edge with padding at the end, node_face[n] lists exactly the faces with corner n; all in the standard integer dtype; source-supplied edge_face is carried unchanged.",
+  "Bounds: quick 2 triangles, 2 faces with sizes (3,4)/(4,3), node ids < 4..5; thorough every padding layout of 2 faces <= 4 corners and 3 triangles. node_face's dict-keyed builder forks over node ids (solver-driven value enumeration, stated in the evidence). Manifold precondition assumed. Trusted: shim (validated on the repo's test tables each run), relational np.unique contract, z3.",
+  "DESIGN.md §2 C03"),
+ "C05": (True,
+  "(i) every literal quadrature table of the real code integrates every polynomial of the rule's degree (symbolic coefficients, LRA) with positive weights and interior points; (ii) the real Jacobian routines, executed symbolically in the quadrature point, equal the area element |det[F,Fa,Fb]|/|F|^3 of the radial projection on 4 rational triangles (polynomial identity, z3 nlsat); (iii) the real calculate_face_area is exactly the weight x Jacobian sum over the fan triangles (0,j+1,j+2), each once, from lon/lat or xyz, and is >= 0; (iv) the real Grid.compute_face_areas hands each face its own corners in order, unpadded, in the requested coordinate system with the requested rule/order, total area is their sum; (v) face_areas is the default-rule result regardless of earlier computations.",
+  "Outside the claim (transcendental, no SMT theory here bounds it): agreement with the exact spherical excess, the 1e-2/1e-4/1e-6 accuracy ladder, convergence, rotation/start-corner/coordinate invariance of the value, additivity under subdivision; the Jacobian identity for symbolic node vectors (nlsat unknown after 300 s with 3 symbolic components). Bounds: rules gaussian 1..10 / triangular 1,4,8,10,12; faces of 3..8 corners; 2 faces <= 4 corners for the gather. Trusted: shim, z3 (LRA, nlsat).",
+  "DESIGN.md §2 C05"),
 }
 NA = {
  "C10": "Quantifies over arbitrary compositions of xarray's own operations; whether the grid survives is decided inside xarray/numpy C-level dispatch which symbolic values cannot cross, and there is no bounded uxarray kernel to encode (DESIGN.md §4).",
